@@ -142,10 +142,7 @@ int main(int argc, char **argv){
                 auto r = ((output >= -1) && (output < g.getNumOutputs())) ? ratios(g, output, std::vector<double>()) : std::vector<long long>();
                 std::vector<long long> sorted = r; std::sort(sorted.begin(), sorted.end(), std::greater<long long>());
                 sorted.erase(std::unique(sorted.begin(), sorted.end()), sorted.end());
-                double tol;
-                if (rank < 0) tol = 0.0; else if (sorted.empty() || rank == 0) tol = 21.0;
-                else if ((size_t) rank >= sorted.size()) tol = ((double) sorted.back()) * 0.5e-8 + 1.0e-13;
-                else tol = 0.5e-8 * ((double) sorted[(size_t) rank - 1] + (double) sorted[(size_t) rank]);
+                double tol = pick_tolerance(sorted, rank);
                 A("output", jint(output)); A("crit", jstr(crit)); A("ll", jivec(ll)); A("smode", jint(0));
                 A("tolq", jint((long long) std::llround(tol * 1.0e8))); A("tolzero", jbool(tol == 0.0)); A("degenerate", jbool(ratios_degenerate));
                 std::string rs = "["; for(size_t i=0; i<r.size(); i++){ if (i) rs += ","; rs += std::to_string(r[i]); } rs += "]";
@@ -186,10 +183,7 @@ int main(int argc, char **argv){
                     auto r = ((output >= -1) && (output < g.getNumOutputs())) ? ratios(g, output, std::vector<double>()) : std::vector<long long>();
                     std::vector<long long> sorted = r; std::sort(sorted.begin(), sorted.end(), std::greater<long long>());
                     sorted.erase(std::unique(sorted.begin(), sorted.end()), sorted.end());
-                    double tol;
-                    if (rank < 0) tol = 0.0; else if (sorted.empty() || rank == 0) tol = 21.0;
-                    else if ((size_t) rank >= sorted.size()) tol = ((double) sorted.back()) * 0.5e-8 + 1.0e-13;
-                    else tol = 0.5e-8 * ((double) sorted[(size_t) rank - 1] + (double) sorted[(size_t) rank]);
+                    double tol = pick_tolerance(sorted, rank);
                     A("output", jint(output)); A("crit", jstr(crit)); A("ll", jivec(ll));
                     A("tolq", jint((long long) std::llround(tol * 1.0e8))); A("tolzero", jbool(tol == 0.0)); A("degenerate", jbool(ratios_degenerate));
                     std::string rs = "["; for(size_t i=0; i<r.size(); i++){ if (i) rs += ","; rs += std::to_string(r[i]); } rs += "]";
